@@ -23,6 +23,10 @@ func CheckC10(h *History, accept func(matcher string, d *Dgram, fam string) bool
 			add("unexpected-error", "call %d returned an error outside the allowed set: %s", c.ID, c.Err)
 			continue
 		}
+		if c.ErrKind == "inuse" && len(c.TxSeqs) > 0 {
+			add("refused-call-transmitted", "call %d was refused (%s) although it had already transmitted: a refusal must happen before anything is sent", c.ID, c.Err)
+			continue
+		}
 		if c.InsideHolder != 0 && c.ErrKind != "inuse" {
 			add("pending-xid-not-refused", "call %d reused transaction id %d while call %d had it pending for its whole lifetime, and was not refused (result: %s)", c.ID, c.Xid, c.InsideHolder, c.ErrKind)
 		}
